@@ -129,7 +129,7 @@ def _helper_ok(g: FunctionInfo) -> bool:
     if isinstance(node, ast.AsyncFunctionDef) or node.decorator_list:
         return False
     a = node.args
-    if a.vararg or a.kwarg:
+    if a.vararg:
         return False
     for n in _own_nodes(node):
         if isinstance(n, (ast.Yield, ast.YieldFrom, ast.Global, ast.Nonlocal, ast.Await)):
@@ -179,8 +179,13 @@ def _resolve_helper(prog: Program, f: FunctionInfo, call: ast.Call, known: Set[s
                 recv = fn.value
     if g is None or g is f or g.short in known or not _helper_ok(g):
         return None
-    if any(isinstance(a, ast.Starred) for a in call.args) or any(k.arg is None for k in call.keywords):
+    if any(isinstance(a, ast.Starred) for a in call.args):
         return None
+    stars = [k for k in call.keywords if k.arg is None]
+    if stars and not (g.node.args.kwarg is not None and len(stars) == 1 and isinstance(stars[0].value, ast.Name)):
+        return None
+    if g.node.args.kwarg is not None and not stars:
+        return None  # the helper's **kwargs would be an empty/new dict: keep the call
     # no recursion
     for n in _own_nodes(g.node):
         if isinstance(n, ast.Call) and ((isinstance(n.func, ast.Name) and n.func.id == g.name) or (isinstance(n.func, ast.Attribute) and n.func.attr == g.name)):
@@ -204,6 +209,10 @@ def _bind(g: FunctionInfo, call: ast.Call, recv: Optional[ast.AST]) -> Optional[
     for p, v in zip(pos, args):
         out[p] = v
     for k in call.keywords:
+        if k.arg is None:
+            # `**kwargs` handed through unchanged to the helper's own **kwargs
+            out[a.kwarg.arg] = k.value
+            continue
         if k.arg in out or k.arg not in pos + kwonly:
             return None
         out[k.arg] = k.value
